@@ -1,9 +1,44 @@
-(* C09 — Keyset lifecycle
-   Statements only; every proof is `exact <lemma>` into Mint/*.v (model: Mint/Model.v, semantics: Mint/Sem.v). *)
+(* C09 - Keyset lifecycle: deterministic keys, one active keyset, old ecash stays valid
+   Statements only; every proof is `exact <lemma>` into coq/Mint/*.v.
+
+   Reading guide (definitions in coq/Mint/*.v):
+     world            = store (tables spent/pending/signatures/mint quotes/melt quotes/keysets) + Lightning environment
+                        (invoices, scripted answers, log of pay calls) + the process memory (keysets, active keyset)
+     op               = one request (OSwap, OMint, OMelt, OMeltQuote, OMintQuote, OMintState, OMeltState, OCheck, ORestore,
+                        ORotate, ORestart, OWatcher, OBalance, OInfo) or environment step (ESettle, EScriptPay/Look, ...)
+     op_prog          = the request as a program over storage/Lightning calls, following mint/mint.go call by call
+     run p f w        = run program p from world w; f: which call positions get an injected storage error (no_fault: none)
+     run_n n p f w    = the same, but the process dies after n calls
+     step cfg f w o   = one request run to completion; run_history / reach: a sequential fault-free history from the empty store
+     hrun cfg w h     = a history of items: HNormal o | HFault o f | HCrash o n | HConc ops schedule (interleaving at call granularity)
+     WInv w           = every table has unique keys (Y, B_, quote ids, keyset ids)
+     Good w           = WInv w and no Y is both spent and pending
+     wext w w'        = spent and signature tables of w' extend those of w (nothing removed or altered)
+     same_but_calls   = nothing changed but the call counter
+     settled w h      = the backend reports the own invoice with payment hash h as settled
+
+   KOk w: memory = stored rows, one active keyset = w_active, all other ids smaller.  The bit-level derivation is C11 (c09-keygen stream).
+*)
 From Coq Require Import ZArith List Bool.
-From Verif Require Import Model Sem InvDb InvSwap InvMint InvMelt Corollaries Queries.
+From Verif Require Import Model Sem InvDb InvSwap InvMint InvMelt Corollaries Queries Footprint HRel Global GlobalQuote GlobalValue GlobalErr GlobalQuery GlobalMelt GlobalKeys Cuts.
 Import ListNotations.
 Open Scope Z_scope.
+
+Theorem C09_one_active_keyset : forall (cfg : config) (h : list op), let w := reach cfg h in d_ks (w_db w) <> [] -> KOk w.
+Proof. exact @one_active_keyset. Qed.
+Print Assumptions C09_one_active_keyset.
+
+Theorem C09_keysets_never_lost : forall (cfg : config) (h : list hitem) (w : world), ks_ext (d_ks (w_db w)) (d_ks (w_db (hrun cfg w h))).
+Proof. exact @keysets_never_lost. Qed.
+Print Assumptions C09_keysets_never_lost.
+
+Theorem C09_cut_keeps_keysets : forall (cfg : config) (mem_ks : list ksrow) (active : Z) (o : op) (n : nat) (f : oracle) (w : world),
+       match o with
+       | ORotate _ | ORestart _ _ => False
+       | _ => True
+       end -> same_ks w (fst (run_n n (op_prog cfg mem_ks active o) f w)).
+Proof. exact @cut_keeps_keysets. Qed.
+Print Assumptions C09_cut_keeps_keysets.
 
 Theorem C09_rotate_spec : forall (mem_ks : list ksrow) (active fee : Z) (w : world) (a : ksrow),
        find_ks active mem_ks = Some a ->
@@ -39,13 +74,21 @@ Theorem C09_load_spec : forall (fee : Z) (w : world) (rows : list ksrow),
 Proof. exact @load_spec. Qed.
 Print Assumptions C09_load_spec.
 
-Theorem C09_swap_signs_active_only : forall (mem_ks : list ksrow) (active : Z) (ins : list proof) (outs : list bmsg) (sg : bool) 
-         (w w' : world) (sigs : list srow),
+Theorem C09_swap_signs_active_only : forall (mem_ks : list ksrow) (active : Z) (ins : list proof) (outs : list bmsg) 
+         (sg : bool) (w w' : world) (sigs : list srow),
        WInv w ->
        run (swap mem_ks active ins outs sg) no_fault w = (w', Done (Ok sigs)) ->
        forall s : srow, In s sigs -> s_ks s = active.
 Proof. exact @swap_signs_active_only. Qed.
 Print Assumptions C09_swap_signs_active_only.
+
+Theorem C09_check_outputs_active : forall (mem_ks : list ksrow) (active : Z) (outs : list bmsg),
+       check_outputs mem_ks active outs = None ->
+       forall o : bmsg,
+       In o outs ->
+       b_ks o = active /\ find_ks (b_ks o) mem_ks <> None /\ is_key_amount (b_amount o) = true /\ b_point o = true.
+Proof. exact @check_outputs_active. Qed.
+Print Assumptions C09_check_outputs_active.
 
 Theorem C09_tx_fees_per_keyset : forall (mem_ks : list ksrow) (ins : list proof),
        tx_fees mem_ks ins =
@@ -57,12 +100,4 @@ Theorem C09_tx_fees_per_keyset : forall (mem_ks : list ksrow) (ins : list proof)
                      end) ins 0 + 999) / 1000.
 Proof. exact @tx_fees_per_keyset. Qed.
 Print Assumptions C09_tx_fees_per_keyset.
-
-Theorem C09_check_outputs_active : forall (mem_ks : list ksrow) (active : Z) (outs : list bmsg),
-       check_outputs mem_ks active outs = None ->
-       forall o : bmsg,
-       In o outs ->
-       b_ks o = active /\ find_ks (b_ks o) mem_ks <> None /\ is_key_amount (b_amount o) = true /\ b_point o = true.
-Proof. exact @check_outputs_active. Qed.
-Print Assumptions C09_check_outputs_active.
 
